@@ -12,7 +12,8 @@ class C19(Prop):
     exhaustive = True
     rule = ("complete: the live DeviceType members, every (device class x device type) construction attempted, both port "
             "tables dumped; one catalogue event judged by Catalog!Violations, one catalogue per device state (the guards must not "
-            "depend on it) and five catalogues from fresh interpreters with different import orders of the library's modules. "
+            "depend on it), nine catalogues from fresh interpreters with different import orders of the library's modules and six "
+            "from interpreters started with -O / -OO (assert statements stripped). "
             "non-trivial = every catalogue (each holds all 36 constructions)")
     assumptions = [
         "which category a device class is 'for' is taken from its public name (SwitcherPowerPlug -> POWER_PLUG, "
@@ -29,6 +30,11 @@ class C19(Prop):
         for order in (["bridge", "api"], ["api", "bridge"], ["device", "bridge", "api"], ["api", "device", "schedule", "bridge"], ["schedule", "bridge"],
                       ["bridge", "STIR", "api"], ["STIR"], ["USE"], ["api", "USE", "STIR"]):
             out.append({"state": "ON", "order": order, "fresh": True})
+        # ... nor on how the interpreter was started: `python -O` / `-OO` (PYTHONOPTIMIZE in a container image) strip every
+        # `assert` statement together with whatever it calls
+        for opt in (1, 2):
+            for order in ([], ["api", "bridge"], ["USE"]):
+                out.append({"state": "ON", "order": order, "fresh": True, "opt": opt})
         # what the clients do with the port tables: the port each API class dials, over histories of accepted / refused connects
         hists = [["ok"], ["refused", "ok"], ["refused", "refused", "ok"], ["ok", "disc", "ok"], ["ok", "disc", "refused", "ok"],
                  ["refused", "disc", "ok"], ["ok", "op", "disc", "refused", "refused", "ok", "op"], ["refused", "ok", "disc", "ok"]]
@@ -45,7 +51,7 @@ class C19(Prop):
         import sys
         from ..catalogdump import dump
         if scn.get("fresh"):
-            p = subprocess.run([sys.executable, "-m", "harness.catalogdump", scn["state"], ",".join(scn["order"])], capture_output=True, text=True, timeout=120)
+            p = subprocess.run([sys.executable] + (["-" + "O" * scn["opt"]] if scn.get("opt") else []) + ["-m", "harness.catalogdump", scn["state"], ",".join(scn["order"])], capture_output=True, text=True, timeout=120)
             if p.returncode != 0:
                 from ..tlc import Machinery
                 raise Machinery("catalogue dump failed in a fresh interpreter: " + p.stderr[-300:])
